@@ -365,6 +365,7 @@ pub fn cfg_from(args: &Args) -> GenCfg {
         max_objs: args.num("maxobjs", 16) as usize,
         pacing: args.num("pacing", 0) as u8,
         faults: args.flag("faults"),
+        storm: args.flag("storm"),
     }
 }
 
